@@ -1338,6 +1338,24 @@ class Wtp:
             #       .format(invoke_args, parent, ret))
             return ret
 
+        def too_deep(what: str) -> bool:
+            """Every construct that recurses (templates, parser functions,
+            argument references and their defaults, links) pushes an entry
+            on expand_stack; nesting is cut at 100 entries."""
+            if len(self.expand_stack) < 100:
+                return False
+            self.error(
+                "too deep recursion during expansion of " + what,
+                sortid="core/1327",
+            )
+            return True
+
+        def too_deep_error(what: str) -> str:
+            return (
+                '<strong class="error">too deep recursion '
+                "while expanding " + what + "</strong>"
+            )
+
         def expand_recurse(
             coded: str, parent: Optional[ParentData], expand_all: bool
         ) -> str:
@@ -1368,13 +1386,20 @@ class Wtp:
                         # keep it as-is (it won't be expanded)
                         parts.append(ch)
                         continue
+                    if kind in ("T", "A", "L", "E") and too_deep(
+                        "template arguments"
+                    ):
+                        parts.append(too_deep_error("template arguments"))
+                        continue
                     if kind == "T":
                         # Template transclusion or parser function call.
                         # Expand its arguments.
+                        self.expand_stack.append("TEMPLATE_ARGS")
                         new_args = tuple(
                             expand_args(x, argmap).removesuffix("\n")
                             for x in args
                         )
+                        self.expand_stack.pop()
                         parts.append(self._save_value(kind, new_args, nowiki))
                         continue
                     if kind == "A":
@@ -1413,12 +1438,16 @@ class Wtp:
                         continue
                     if kind == "L":
                         # Link to another page
+                        self.expand_stack.append("[[link]]")
                         new_args = tuple(expand_args(x, argmap) for x in args)
+                        self.expand_stack.pop()
                         parts.append(self._unexpanded_link(new_args, nowiki))
                         continue
                     if kind == "E":
                         # Link to another page
+                        self.expand_stack.append("[extlink]")
                         new_args = tuple(expand_args(x, argmap) for x in args)
+                        self.expand_stack.pop()
                         parts.append(self._unexpanded_extlink(new_args, nowiki))
                         continue
                     if kind == "N":
@@ -1558,9 +1587,11 @@ class Wtp:
 
                     if name in self.template_override_funcs and not nowiki:
                         # print("Name in template_overrides: {}".format(name))
+                        self.expand_stack.append("TEMPLATE_ARGS")
                         new_args = tuple(
                             expand_recurse(x, parent, expand_all) for x in args
                         )
+                        self.expand_stack.pop()
                         parts.append(
                             self.template_override_funcs[name](
                                 new_args,
@@ -1580,10 +1611,12 @@ class Wtp:
                         # after eliminating the intermediate templates.
                         # The name was already expanded above; expanding it
                         # again here made nested names take exponential time.
+                        self.expand_stack.append("TEMPLATE_ARGS")
                         new_args = (expanded_name_arg,) + tuple(
                             expand_recurse(x, parent, expand_all)
                             for x in args[1:]
                         )
+                        self.expand_stack.pop()
                         parts.append(
                             self._unexpanded_template(new_args, nowiki)
                         )
@@ -1743,6 +1776,9 @@ class Wtp:
                     if nowiki:
                         parts.append(self._unexpanded_arg(args, nowiki))
                         continue
+                    if too_deep("template argument"):
+                        parts.append(too_deep_error("template argument"))
+                        continue
                     self.expand_stack.append("ARGVAL-NO-TEMPLATE")
                     t = expand_args(ch, {})
                     self.expand_stack.pop()
@@ -1751,6 +1787,8 @@ class Wtp:
                 elif kind == "L":
                     if nowiki:
                         parts.append(self._unexpanded_link(args, nowiki))
+                    elif too_deep("link"):
+                        parts.append(too_deep_error("link"))
                     else:
                         # Link to another page
                         self.expand_stack.append("[[link]]")
@@ -1762,6 +1800,8 @@ class Wtp:
                 elif kind == "E":
                     if nowiki:
                         parts.append(self._unexpanded_extlink(args, nowiki))
+                    elif too_deep("external link"):
+                        parts.append(too_deep_error("external link"))
                     else:
                         # Link to an external page
                         self.expand_stack.append("[extlink]")
